@@ -270,13 +270,13 @@ class SourceToSourceFileImportsTransformation(SourceToSourceTransformationBase):
         non-comment statement.  Intended to be used when the input contains no
         import blocks (before uses).
         """
-        for block in self.blocks[:2]:
+        for block in reversed(self.blocks):
             if (isinstance(block, SourceToSourceImportBlockTransformation)
                 and any(imp.split.module_name == "__future__"
                         for imp in block.importset.imports)):
-                # The file starts (after comments and docstring) with a block
-                # of ``__future__`` imports.  Nothing may come before them:
-                # use that block.
+                # Only comments, the docstring and other ``__future__``
+                # imports can precede a ``__future__`` import, and nothing
+                # else may be put before it: use the last such block.
                 return block
         block = SourceToSourceImportBlockTransformation("")
         sepblock = SourceToSourceTransformation("")
